@@ -7,8 +7,14 @@ use log::info;
 use octo_squirrel::codec::aead::CipherKind;
 use octo_squirrel::config::ServerConfig;
 use octo_squirrel::protocol::Protocol::*;
+#[cfg(not(octo_squirrel_verif))]
 use tokio::net::TcpListener;
+#[cfg(octo_squirrel_verif)]
+use octo_squirrel::verif::net::TcpListener;
+#[cfg(not(octo_squirrel_verif))]
 use tokio::net::UdpSocket;
+#[cfg(octo_squirrel_verif)]
+use octo_squirrel::verif::net::UdpSocket;
 
 mod config;
 mod handshake;
